@@ -18,6 +18,46 @@ pub const RULE: &str = "pre-states from seeded histories (never built / built wi
 
 pub fn gen(seed: u64, thorough: bool) -> Plan {
     let mut r = Rng::new(seed ^ 0xF00D);
+    // a third of the pre-states are tiny incremental builds (a forest of a few nodes, a handful of pending
+    // operations): a whole build is then a few dozen polls, and "nobody asks again" is within reach of every n
+    let tiny = r.chance(3, 4);
+    if tiny {
+        // scripted: one small index with a real forest of a few nodes, committed; then a handful of pending
+        // operations and the build under test with the same options
+        let mut p = crate::plan::gen_history(seed, "C10", thorough);
+        p.engine = "F".into();
+        p.focus = "C10".into();
+        p.seed = seed;
+        p.fixture = None;
+        let keep = p.cfg.indexes[0].clone();
+        p.cfg.indexes = vec![crate::plan::IndexCfg { index: keep.index, metric: keep.metric, dim: 1 + r.below(4) as usize }];
+        p.cfg.builder_opts.clear();
+        p.cfg.reuse_builder = false;
+        p.cfg.pool = *r.pick(&[1usize, 1, 2, 4]);
+        p.cfg.map_size = 256 << 20;
+        p.params.insert("quick".into(), !thorough as u64);
+        p.stage_committed = r.chance(1, 2);
+        let n0 = 8 + r.below(56) as u32;
+        let n_trees = if r.chance(2, 3) { Some(1 + r.below(3) as usize) } else { None };
+        let split_after = Some(1 + r.below(12) as usize);
+        let profile = *r.pick(&[crate::plan::Profile::Uniform, crate::plan::Profile::Lattice, crate::plan::Profile::Clustered]);
+        let mut steps = Vec::new();
+        for id in 0..n0 {
+            steps.push(Step::Add { ix: 0, id, v: crate::plan::VecSpec::Gen { profile, seed: r.next() } });
+        }
+        steps.push(Step::Build { ix: 0, n_trees, split_after, mem: None, seed: r.next(), fault: Fault::None });
+        steps.push(Step::Commit);
+        for _ in 0..1 + r.below(4) {
+            match r.below(4) {
+                0 => steps.push(Step::Del { ix: 0, id: r.below(n0 as u64) as u32 }),
+                1 => steps.push(Step::Add { ix: 0, id: r.below(n0 as u64) as u32, v: crate::plan::VecSpec::Gen { profile, seed: r.next() } }),
+                _ => steps.push(Step::Add { ix: 0, id: n0 + r.below(8) as u32, v: crate::plan::VecSpec::Gen { profile, seed: r.next() } }),
+            }
+        }
+        steps.push(Step::Build { ix: 0, n_trees, split_after, mem: None, seed: r.next(), fault: Fault::None });
+        p.steps = steps;
+        return p;
+    }
     // a history whose last step is a build with something pending
     for attempt in 0..50u64 {
         let mut p = crate::plan::gen_history(crate::util::mix(seed, attempt), "C10", thorough);
@@ -37,6 +77,7 @@ pub fn gen(seed: u64, thorough: bool) -> Plan {
         if adds < 3 || adds > if thorough { 400 } else { 120 } {
             continue;
         }
+
         return p;
     }
     let mut p = crate::plan::gen_history(seed, "C10", thorough);
